@@ -17,7 +17,7 @@ FOCUS = {
 
 
 def enumerate_terms(tag, size, prods, simulate=None, depth=None, seed=None, timeout=3000):
-    cfg = "SPECIFICATION Spec\nCONSTANTS\n  MaxSize = %d\n  MaxScope = 3\n  Emit = TRUE\n  Prods = {%s}\nINVARIANTS Emitted\nCHECK_DEADLOCK FALSE\n" % (
+    cfg = "SPECIFICATION Spec\nCONSTANTS\n  MaxSize = %d\n  MaxScope = 3\n  Emit = TRUE\n  StartScope = 0\n  Prods = {%s}\nINVARIANTS Emitted\nCHECK_DEADLOCK FALSE\n" % (
         size, ", ".join('"%s"' % p for p in prods))
     name = "_c03_%s_%d" % (tag, os.getpid())
     open(os.path.join(vlib.SPEC, name + ".cfg"), "w").write(cfg)
@@ -32,6 +32,61 @@ def enumerate_terms(tag, size, prods, simulate=None, depth=None, seed=None, time
         os.remove(os.path.join(vlib.SPEC, name + ".cfg"))
     if r.violation:
         raise vlib.ToolError("LangW.tla: %s" % r.violation)
+    return out, r
+
+
+def fillers(tag, size, scope, prods):
+    """all terms of at most `size` nodes which may refer to `scope` variables already bound (LangW.tla HoleSpec)"""
+    cfg = "SPECIFICATION HoleSpec\nCONSTANTS\n  MaxSize = %d\n  MaxScope = 3\n  Emit = TRUE\n  StartScope = %d\n  Prods = {%s}\nINVARIANTS EmittedRaw\nCHECK_DEADLOCK FALSE\n" % (
+        size, scope, ", ".join('"%s"' % p for p in prods))
+    name = "_c03_%s_%d" % (tag, os.getpid())
+    open(os.path.join(vlib.SPEC, name + ".cfg"), "w").write(cfg)
+    out = []
+    def cb(line):
+        o = vlib.tlc_value_to_json(line)
+        if o:
+            out.append(o["p"])
+    try:
+        r = vlib.run_tlc("LangW", name, workers=4, timeout=1200, print_prefix='"TERM"', print_cb=cb, xss="512m", xmx="8g")
+    finally:
+        os.remove(os.path.join(vlib.SPEC, name + ".cfg"))
+    if r.violation:
+        raise vlib.ToolError("LangW.tla: %s" % r.violation)
+    out.sort(key=json.dumps)
+    return out, r
+
+
+def skeleton_terms(tier, seed):
+    """the generalisation-sensitive family  (\\x -> let g = \\y -> H in K) A : H sees x and y, K sees x and g, A is
+    closed; TLC enumerates the fillers of each hole, the product is formed here (sampled in the quick tier)"""
+    prods = ["var", "int", "str", "tt", "app", "if", "lam"]
+    hs, r1 = fillers("skelH", 6, 2, prods)
+    ks, r2 = fillers("skelK", 3, 2, ["var", "int", "str", "app"])
+    as_, r3 = fillers("skelA", 2, 0, ["var", "int", "str", "lam"])
+    as_ = [a for a in as_ if a[0][0] == "lam"]
+    # only fillers that can matter: H mentions x and y (otherwise the type of g is not tied to x), K mentions g
+    hs = [h for h in hs if any(n == ["var", 1] for n in h) and any(n == ["var", 2] for n in h)]
+    ks = [k for k in ks if any(n == ["var", 2] for n in k)]
+    rnd = random.Random(seed + 17)
+    head = [["app", 0], ["lam", 0], ["let", 0], ["lam", 0]]
+    n = 40000 if tier == "quick" else 600000
+    total = len(hs) * len(ks) * len(as_)
+    out = []
+    if total <= n:
+        for h in hs:
+            for k in ks:
+                for a in as_:
+                    out.append(head + h + k + a)
+    else:
+        seen = set()
+        while len(out) < n:
+            t = (rnd.randrange(len(hs)), rnd.randrange(len(ks)), rnd.randrange(len(as_)))
+            if t not in seen:
+                seen.add(t)
+                out.append(head + hs[t[0]] + ks[t[1]] + as_[t[2]])
+    class R: pass
+    r = R(); r.distinct = r1.distinct + r2.distinct + r3.distinct; r.generated = r1.generated + r2.generated + r3.generated
+    r.total = total
     return out, r
 
 
